@@ -151,7 +151,9 @@ def run_scripts(exe, args, script_texts, rundir, jobs=None, env=None, timeout=36
     """Runs all scripts, split over `jobs` processes.  Returns (fails, records, nscripts, nsteps)."""
     if not script_texts:
         return [], [], 0, 0
-    jobs = max(1, min(jobs or NCPU, (len(script_texts) + 49) // 50))
+    # the number of harness processes follows the machine (VERIF_JOBS, default: all cores), not the caller's hint: the hints
+    # date from the time when ten builders shared the machine
+    jobs = max(1, min(NCPU, (len(script_texts) + 49) // 50))
     # interleave so that each process gets a similar mix
     parts = [script_texts[i::jobs] for i in range(jobs)]
     fails, records = [], []
